@@ -1139,6 +1139,18 @@ def cond_infeasible(d, v):
     if x[0] == 'const' and isinstance(x[2], (bool, int)) and not isinstance(x[2], float):
         val = int(x[2])
         return (val in v[1]) if isinstance(v, tuple) else (val not in v)
+    if x[0] == 'discr':
+        # the discriminant of a variant built in place (an enum flag fixed at the call site of a spliced helper)
+        a = x[1]
+        while a[0] in ('ref', 'deref'):
+            a = a[1]
+        if a[0] == 'aggr' and '::' in str(a[1]) and CURRENT is not None:
+            owner, _, vname = str(a[1]).rpartition('::')
+            rec = CURRENT.adts.get(owner)
+            if rec:
+                dv = [vv.get('discr') for vv in rec['variants'] if vv['name'] == vname]
+                if len(dv) == 1 and isinstance(dv[0], int) and len(rec['variants']) > 1:
+                    return (dv[0] in v[1]) if isinstance(v, tuple) else (dv[0] not in v)
     return False
 
 
